@@ -229,6 +229,16 @@ impl TRig {
             RealIface::Par16(p) => exec_call(p, c).map_err(|e| e.classify()),
         })
     }
+    /// `InterfaceExt::write_raw` on the real interface
+    pub fn call_raw(&mut self, op: u8, params: &[u8]) -> Outcome {
+        use mipidsi::dcs::InterfaceExt;
+        let i = self.iface.as_mut().unwrap();
+        guarded(|| match i {
+            RealIface::Spi(s, _) => s.write_raw(op, params).map_err(|e| e.classify()),
+            RealIface::Par8(p) => p.write_raw(op, params).map_err(|e| e.classify()),
+            RealIface::Par16(p) => p.write_raw(op, params).map_err(|e| e.classify()),
+        })
+    }
     pub fn latched(&mut self) -> Vec<(bool, u16)> {
         let b = self.bd.borrow();
         self.lat.drain(&b)
